@@ -175,6 +175,19 @@ def run(ctx):
     # ---- report (one per signature, shrunk)
     seen = set()
     found_concrete = False
+    if pid == "C04":
+        for wi, w in enumerate(walks):
+            pr = w.get("refusal_probe")
+            if not pr: continue
+            what = None
+            if pr["obs"][0] != "err": what = ("impossible-request-not-refused", str(pr["obs"]))
+            elif pr["state_changed"]: what = ("refused-request-changed-the-allocator-state", "capacity / free list differ after allocate(2^62) was refused")
+            elif pr["c04"]: what = ("after-a-refused-request", pr["c04"])
+            elif pr["then"][0] == "err": what = ("request-after-a-refused-one-raises-" + str(pr["then"][1]), "")
+            if what and ("C04/alloc/" + what[0]) not in seen:
+                seen.add("C04/alloc/" + what[0]); found_concrete = True
+                report(ctx, "C04/alloc/" + what[0], what[1], dict(kind="concrete", tie="K-ALLOC", cfg=w["cfg"], ops=[st["op"] for st in w["steps"]] + [["alloc", 1 << 62, 1], ["alloc", 16, 1]],
+                                                              observed=pr, how_to_replay="./check C04 --replay <this file>"))
     for (wi, k, wh) in sorted(fails):
         w = walks[wi]
         sig = classify(pid, w, k, wh)
